@@ -1011,7 +1011,7 @@ var (
 )
 
 func (m *Monitor) checkInfo(op *Op, f *Fn, rec *OpRec) {
-	if op.Kind != OpInvoke {
+	if op.Kind != OpInvoke && !stressMode {
 		if f.Pool > 0 {
 			idx := f.Pool - 1
 			m.stats["info.ids-checked"]++
